@@ -118,6 +118,14 @@ impl SecondaryStorage {
             dvs_to_open.len()
         );
 
+        // A transaction that was in flight when its table was dropped may have logged row-sets
+        // and delete vectors after the drop record: they belong to no table and are vacuumed.
+        {
+            let tables = engine.tables.read();
+            rowsets_to_open.retain(|_, e: &mut AddRowSetEntry| tables.contains_key(&e.table_id));
+            dvs_to_open.retain(|_, e: &mut AddDVEntry| tables.contains_key(&e.table_id));
+        }
+
         let mut changeset = vec![];
 
         if !options.disable_all_disk_operation {
